@@ -75,6 +75,12 @@ def _impl_one(op):
     if kind == "DEC":
         _, mode, tname, cc, enc, data = op
         return canon.impl_dec(mode, tname, cc, enc, data)
+    if kind == "DECU":
+        _, mode, tname, cc, enc, data = op
+        return canon.impl_dec(mode, tname, cc, enc, data, unmarshal=True)
+    if kind == "DECSRC":
+        _, mode, tname, cc, enc, data, src = op
+        return canon.impl_dec(mode, tname, cc, enc, data, source=src)
     if kind == "INT":
         return canon.impl_int(op[1], op[2])
     if kind == "BITS":
@@ -93,6 +99,8 @@ def op_line(op):
     if op[0] == "DEC":
         _, mode, tname, cc, enc, data = op
         return canon.dec_op(mode, tname, cc, enc, data)
+    if op[0] == "DECU":
+        return "DECU" + canon.dec_op(*op[1:])[3:]
     if op[0] in ("INT", "BITS", "INTP"):
         return f"{op[0]} {op[1]} {op[2]}"
     raise ValueError(op[0])
